@@ -5,6 +5,7 @@ use crate::elem::*;
 use crate::model::*;
 use crate::ops::*;
 use crate::recv::*;
+use crate::wl_insrem::big_shapes;
 
 fn nsel(ctx: &Ctx, miri_q: usize, miri_t: usize, vg: usize, quick: usize, thorough: usize) -> usize {
     match (ctx.scale, ctx.tier) {
@@ -55,6 +56,24 @@ fn idx_list(dim: usize) -> Vec<usize> {
     let mut v: Vec<usize> = (0..=dim + 1).collect();
     v.push(usize::MAX);
     v
+}
+
+
+/// Candidate indices for a dimension in the sampled (big-shape) sweeps.
+fn cand(dim: usize) -> Vec<usize> {
+    let mut v = vec![0, 1, dim / 2, dim.saturating_sub(1), dim, dim + 1, usize::MAX];
+    v.sort_unstable();
+    v.dedup();
+    v
+}
+
+fn big_placements(wc: usize, wr: usize) -> Vec<(Recv, (usize, usize), Win)> {
+    vec![
+        (Recv::Owned, (wc, wr), full_win(wc, wr)),
+        (Recv::View, (wc + 3, wr + 2), ((2, 1), (2 + wc, 1 + wr))),
+        (Recv::ThinOwned, (wc, wr), full_win(wc, wr)),
+        (Recv::Nested, (wc + 2, wr + 2), ((1, 1), (1 + wc, 1 + wr))),
+    ]
 }
 
 fn run_ops_both(ctx: &mut Ctx, prop: &str, pshape: (usize, usize), win: Win, recv: Recv, ops: &[Op], keys: &dyn Fn(usize, usize) -> u32, twin: bool, tok: bool, thin: u64) {
@@ -116,6 +135,35 @@ pub fn run_c13(ctx: &mut Ctx) {
             run_ops_both(ctx, "C13", pshape, win, recv, &ops, &default_keys, false, true, 12);
         }
     }
+    // larger shapes: sampled index pairs
+    for (wc, wr) in big_shapes(ctx, 13) {
+        for (recv, pshape, win) in big_placements(wc, wr) {
+            if !ctx.case(|| format!("C13 big recv={:?} shape={}x{}", recv, wc, wr)) {
+                if ctx.done() {
+                    return;
+                }
+                continue;
+            }
+            let mut rng = Rng::from_parts(ctx.seed, ctx.cur_idx, 13);
+            let mut ops = vec![Op::Fill];
+            for &a in &cand(wr) {
+                for &b in &cand(wr) {
+                    ops.push(Op::SwapRows(a, b));
+                    ops.push(Op::RowPair(a, b));
+                }
+            }
+            for &a in &cand(wc) {
+                for &b in &cand(wc) {
+                    ops.push(Op::SwapCols(a, b));
+                }
+            }
+            for _ in 0..40 {
+                ops.push(Op::Swap((*rng.pick(&cand(wc)), *rng.pick(&cand(wr))), (*rng.pick(&cand(wc)), *rng.pick(&cand(wr)))));
+                ops.push(Op::Swap((rng.below(wc), rng.below(wr)), (rng.below(wc), rng.below(wr))));
+            }
+            run_ops_both(ctx, "C13", pshape, win, recv, &ops, &default_keys, false, wc * wr <= 400, 12);
+        }
+    }
 }
 
 // ================================================================================================
@@ -167,6 +215,39 @@ pub fn run_c14(ctx: &mut Ctx) {
             run_ops_both(ctx, "C14", pshape, win, recv, &ops, &default_keys, false, true, 6);
         }
     }
+    for (wc, wr) in big_shapes(ctx, 14) {
+        for (recv, pshape, win) in big_placements(wc, wr) {
+            if !ctx.case(|| format!("C14 big recv={:?} shape={}x{}", recv, wc, wr)) {
+                if ctx.done() {
+                    return;
+                }
+                continue;
+            }
+            let mut rng = Rng::from_parts(ctx.seed, ctx.cur_idx, 14);
+            let mut ops = vec![];
+            for d in [-1isize, 0, 1] {
+                ops.push(Op::CopyFromSlice(d));
+                ops.push(Op::CloneFromSlice(d));
+            }
+            for k in [SrcKind::Owned, SrcKind::View, SrcKind::ViewMut] {
+                for rel in [SizeRel::Same, SizeRel::ColsPlus1, SizeRel::Transposed] {
+                    ops.push(Op::CopyFromToodee(k, rel));
+                    ops.push(Op::CloneFromToodee(k, rel));
+                }
+            }
+            for i in 0..80 {
+                let s0 = rng.below(wc + 1);
+                let s1 = rng.below(wr + 1);
+                let e0 = rng.range(s0, wc);
+                let e1 = rng.range(s1, wr);
+                let (w, h) = (e0 - s0, e1 - s1);
+                // mostly valid, overlapping placements; every fourth one just off the edge
+                let (d0, d1) = if i % 4 == 3 { (wc - w + rng.below(2), wr - h + 1 - rng.below(2)) } else { (rng.below(wc - w + 1), rng.below(wr - h + 1)) };
+                ops.push(Op::CopyWithin((s0, s1), (e0, e1), (d0, d1)));
+            }
+            run_ops_both(ctx, "C14", pshape, win, recv, &ops, &default_keys, false, wc * wr <= 400, 6);
+        }
+    }
 }
 
 // ================================================================================================
@@ -193,6 +274,30 @@ pub fn run_c15(ctx: &mut Ctx) {
             }
             let tok = wc * wr <= 36;
             run_ops_both(ctx, "C15", pshape, win, recv, &ops, &default_keys, false, tok, 1);
+        }
+    }
+    for (wc, wr) in big_shapes(ctx, 15) {
+        if wc <= n && wr <= n {
+            continue;
+        }
+        for (recv, pshape, win) in big_placements(wc, wr) {
+            if !ctx.case(|| format!("C15 big recv={:?} shape={}x{}", recv, wc, wr)) {
+                if ctx.done() {
+                    return;
+                }
+                continue;
+            }
+            let mut rng = Rng::from_parts(ctx.seed, ctx.cur_idx, 15);
+            let mut ops = vec![Op::FlipRows, Op::FlipCols];
+            for &mc in &cand(wc) {
+                for &mr in &cand(wr) {
+                    ops.push(Op::Translate(mc, mr));
+                }
+            }
+            for _ in 0..30 {
+                ops.push(Op::Translate(rng.below(wc + 1), rng.below(wr + 1)));
+            }
+            run_ops_both(ctx, "C15", pshape, win, recv, &ops, &default_keys, false, wc * wr <= 200, 1);
         }
     }
 }
@@ -260,6 +365,57 @@ fn run_sorts(ctx: &mut Ctx, prop: &'static str, by_row: bool) {
                             let o = run_op::<Tok>(ctx, &oc);
                             if o != Outcome::Failed && (!sorted_already || o == Outcome::Rejected) {
                                 ctx.nontrivial((prop, recv, (wc, wr), *op, pat, "Tok"));
+                            }
+                        }
+                    }
+                }
+            }
+        }
+    }
+    // larger shapes: random key lines over {0,1,2} (long runs of ties), sampled line indices
+    for (wc, wr) in big_shapes(ctx, if by_row { 16 } else { 17 }) {
+        for (recv, pshape, win) in big_placements(wc, wr) {
+            if !ctx.case(|| format!("{} big recv={:?} shape={}x{}", prop, recv, wc, wr)) {
+                if ctx.done() {
+                    return;
+                }
+                continue;
+            }
+            let mut rng = Rng::from_parts(ctx.seed, ctx.cur_idx, 16);
+            let line_len = if by_row { wc } else { wr };
+            let nlines = if by_row { wr } else { wc };
+            let vars: &[SortVar] = if by_row { &ROW_SORTS } else { &COL_SORTS };
+            for &idx in &cand(nlines) {
+                for rep in 0..3 {
+                    // key line generators: random, descending with ties, few distinct values
+                    let line: Vec<u32> = (0..line_len)
+                        .map(|p| match rep {
+                            0 => rng.below(3) as u32,
+                            1 => (2 - (p * 3 / line_len.max(1)).min(2)) as u32,
+                            _ => if rng.chance(1, 8) { 1 } else { 0 },
+                        })
+                        .collect();
+                    let ws = win.0;
+                    let keys = |c: usize, r: usize| -> u32 {
+                        let (wc_, wr_) = (c.wrapping_sub(ws.0), r.wrapping_sub(ws.1));
+                        let (pos, l) = if by_row { (wc_, wr_) } else { (wr_, wc_) };
+                        if l == idx && pos < line_len {
+                            line[pos]
+                        } else {
+                            ((c * 5 + r * 11) % 7) as u32
+                        }
+                    };
+                    for &v in vars {
+                        let op = Op::Sort(v, idx, rep == 1 && !v.is_ord());
+                        let oc = OpCase { pshape, win, recv, op, keys: &keys, twin: matches!(recv, Recv::View | Recv::Nested) };
+                        let o = run_op::<Kv>(ctx, &oc);
+                        if o != Outcome::Failed {
+                            ctx.nontrivial((prop, "big", recv, (wc, wr), op, rep, "Kv"));
+                        }
+                        if wc * wr <= 200 && rep == 0 {
+                            let o = run_op::<Tok>(ctx, &oc);
+                            if o != Outcome::Failed {
+                                ctx.nontrivial((prop, "big", recv, (wc, wr), op, rep, "Tok"));
                             }
                         }
                     }
@@ -371,6 +527,63 @@ pub fn run_c04(ctx: &mut Ctx) {
                 let ops = c04_ops(wc, wr, &mut rng);
                 let keys = |c: usize, r: usize| ((c * 3 + r * 5 + (c * r) % 3) % 4) as u32;
                 run_ops_both(ctx, "C04", (pc, pr), win, recv, &ops, &keys, recv != Recv::ThinView, true, 1);
+            }
+        }
+    }
+    // larger parents: random proper windows, sampled operations
+    for (pc, pr) in big_shapes(ctx, 4) {
+        if pc < 2 && pr < 2 {
+            continue;
+        }
+        for wi in 0..4 {
+            for recv in [Recv::View, Recv::Nested, Recv::ThinView] {
+                if !ctx.case(|| format!("C04 big recv={:?} parent={}x{} window#{}", recv, pc, pr, wi)) {
+                    if ctx.done() {
+                        return;
+                    }
+                    continue;
+                }
+                let mut rng = Rng::from_parts(ctx.seed, ctx.cur_idx, 44);
+                // a proper non-empty window; wi selects the flavour (interior, left edge, bottom edge, random)
+                let (s0, s1, e0, e1) = loop {
+                    let (s0, s1) = match wi {
+                        1 => (0, rng.below(pr)),
+                        _ => (rng.below(pc), rng.below(pr)),
+                    };
+                    let (e0, e1) = match wi {
+                        2 => (rng.range(s0 + 1, pc), pr),
+                        _ => (rng.range(s0 + 1, pc), rng.range(s1 + 1, pr)),
+                    };
+                    if !(s0 == 0 && s1 == 0 && e0 == pc && e1 == pr) {
+                        break (s0, s1, e0, e1);
+                    }
+                };
+                let win = ((s0, s1), (e0, e1));
+                let (wc, wr) = (e0 - s0, e1 - s1);
+                let all = c04_ops(wc.min(12), wr.min(12), &mut rng);
+                // keep every kind but thin the per-cell / per-pair enumerations
+                let mut ops: Vec<Op> = all.into_iter().filter(|_| rng.chance(1, 3)).collect();
+                for _ in 0..12 {
+                    ops.push(Op::Swap((rng.below(wc), rng.below(wr)), (rng.below(wc), rng.below(wr))));
+                    ops.push(Op::SetCoord(rng.below(wc), rng.below(wr)));
+                    ops.push(Op::Translate(rng.below(wc + 1), rng.below(wr + 1)));
+                    ops.push(Op::SwapRows(rng.below(wr), rng.below(wr)));
+                    ops.push(Op::SwapCols(rng.below(wc), rng.below(wc)));
+                    ops.push(Op::ColMut(rng.below(wc), *rng.pick(&WALKS)));
+                    let v = *rng.pick(&ROW_SORTS);
+                    ops.push(Op::Sort(v, rng.below(wr), rng.chance(1, 2)));
+                    let v = *rng.pick(&COL_SORTS);
+                    ops.push(Op::Sort(v, rng.below(wc), rng.chance(1, 2)));
+                }
+                ops.push(Op::Fill);
+                ops.push(Op::FlipRows);
+                ops.push(Op::FlipCols);
+                for w in WALKS {
+                    ops.push(Op::RowsMut(w));
+                    ops.push(Op::CellsMut(w));
+                }
+                let keys = |c: usize, r: usize| ((c * 3 + r * 5 + (c * r) % 3) % 4) as u32;
+                run_ops_both(ctx, "C04", (pc, pr), win, recv, &ops, &keys, recv != Recv::ThinView, pc * pr <= 300, 1);
             }
         }
     }
